@@ -7,7 +7,7 @@ Fail closed, per function: a target that is no longer inside the translator's su
 `-- NOT TRANSLATED` takes its place), so the `Props/<Cxx>Fn.lean` theorem that mentions it no longer builds and
 `bin/check Cxx` reports a broken obligation for exactly the properties that rest on it.  A target without a
 tying theorem in the Props file is a configuration error and raises (all properties)."""
-import os, re, hashlib
+import os, re, hashlib, json, glob
 from rustsrc import ExtractError
 from rs2lean import Unit, RsError
 
@@ -66,6 +66,110 @@ TARGETS = [
 ]
 
 
+def load_targets():
+    """TARGETS above plus every `translate/fn_targets/*.json` (one file per area and builder, so that adding targets
+    never conflicts in git).  A file holds one dict or a list of dicts with the keys of a TARGETS block
+    (`area`, `rel`, `fns` = [[impl or "", function, property, theorem or null, "snippet"?], …], optional `consts`,
+    `structs`, `externals`, `foreign_structs` = {"OutPoint": {"txid": "Txid", "vout": "u32"}} for structs of other crates,
+    `tuple_structs` = names of tuple structs to be read as the tuple of their components).  Blocks with the same `area` are merged (same `rel` required): the
+    area is one Lean namespace `VlsModel.Gen.Fn<area>`."""
+    tgs, by = [], {}
+    def add(d, origin):
+        d = dict(d)
+        d["fns"] = [tuple(x) for x in d.get("fns", [])]
+        if d["area"] not in by:
+            d.setdefault("consts", []); d.setdefault("structs", []); d.setdefault("externals", {}); d.setdefault("foreign_structs", {})
+            d["consts"], d["structs"] = list(d["consts"]), list(d["structs"])
+            d["externals"], d["foreign_structs"] = dict(d["externals"]), dict(d["foreign_structs"])
+            d["tuple_structs"] = list(d.get("tuple_structs", []))
+            by[d["area"]] = d; tgs.append(d)
+            return
+        t = by[d["area"]]
+        if t["rel"] != d["rel"]:
+            raise ExtractError("x_fn: %s: area %s is already bound to %s" % (origin, d["area"], t["rel"]))
+        t["fns"] += [f for f in d["fns"] if f[:2] not in [g[:2] for g in t["fns"]]]
+        for k in ("consts", "structs"):
+            t[k] += [x for x in d.get(k, []) if x not in t[k]]
+        t["externals"].update(d.get("externals", {}))
+        t["foreign_structs"].update(d.get("foreign_structs", {}))
+        t["tuple_structs"] += [n for n in d.get("tuple_structs", []) if n not in t["tuple_structs"]]
+    for t in TARGETS: add(t, "TARGETS")
+    for path in sorted(glob.glob(os.path.join(HERE, "fn_targets", "*.json"))):
+        try:
+            data = json.load(open(path))
+        except ValueError as e:
+            raise ExtractError("x_fn: %s: %s" % (path, e))
+        for d in (data if isinstance(data, list) else [data]):
+            add(d, os.path.basename(path))
+    return tgs
+
+
+FIXTURE_PROP = "FIX"    # functions of harness/src/props/fn_gen_fixture.rs: differential test of the translator only
+
+
+def unit_for(repo, tg):
+    return Unit(repo, tg["rel"], "VlsModel.Gen.Fn" + tg["area"], tg.get("consts", ()), tg.get("externals", {}),
+                tg.get("structs", ()), foreign_structs=tg.get("foreign_structs"), tuple_structs=tg.get("tuple_structs"))
+
+
+def census(repo, tgs=None, units=None):
+    """per anchor file of properties.jsonl: every `fn` item with its status
+    tied (theorem) / translated (in the subset, no theorem) / not translatable (reason) / declaration"""
+    tgs = tgs if tgs is not None else load_targets()
+    files = []
+    props_of = {}
+    for line in open(os.path.join(HERE, "..", "properties.jsonl")):
+        d = json.loads(line)
+        for f in d["anchors"]["files"]:
+            if f.endswith(".rs"):
+                if f not in files: files.append(f)
+                props_of.setdefault(f, []).append(d["id"])
+    tied = {}
+    for tg in tgs:
+        for tup in tg["fns"]:
+            tied.setdefault((tg["rel"], tup[0] or None, tup[1]), []).append((tg["area"], tup[2], tup[3]))
+    out = {}
+    for rel in files:
+        if not os.path.exists(os.path.join(repo, rel)):
+            out[rel] = {"properties": props_of[rel], "error": "file not found"}; continue
+        try:
+            u = Unit(repo, rel, "VlsModel.Census")
+        except (RsError, OSError) as e:
+            out[rel] = {"properties": props_of[rel], "error": "cannot be indexed: %s" % e}; continue
+        rows = []
+        for (impl, name), k in sorted(u.fi.fns.items(), key=lambda kv: kv[1] if isinstance(kv[1], int) else 0):
+            qn = (impl + "::" if impl else "") + name
+            line_no = u.fi.toks[k].line if isinstance(k, int) else 0
+            if (impl, name) in u.fi.decl_only:
+                rows.append({"fn": qn, "line": line_no, "status": "declaration"}); continue
+            ties = tied.get((rel, impl, name))
+            if ties:
+                # the target's own unit (externals/struct files) decides
+                ok = None
+                for area, prop, thm in ties:
+                    tu = (units or {}).get(area)
+                    ok = tu is not None and (impl, name) in tu.fns
+                    rows.append({"fn": qn, "line": line_no, "area": area, "property": prop,
+                                 "status": ("tied" if thm else "translated") if ok else "not translatable",
+                                 **({"theorem": thm} if thm and ok else {}),
+                                 **({} if ok else {"why": (tu.failed.get((impl, name)) if tu else "unit missing")})})
+                continue
+            try:
+                f = u.try_fn(impl, name)
+                why = None if f else u.failed.get((impl, name), "?")
+            except Exception as e:      # a crash of the translator is a refusal, not a result
+                f, why = None, "translator error: %r" % (e,)
+            if f is not None:
+                rows.append({"fn": qn, "line": line_no, "status": "translated"})
+            else:
+                why = re.sub(r"^([\w:]+: )+", "", str(why))
+                rows.append({"fn": qn, "line": line_no, "status": "not translatable", "why": why[:200]})
+        cnt = lambda st: sum(1 for r in rows if r["status"] == st)
+        out[rel] = {"properties": props_of[rel], "fns": len(rows), "tied": cnt("tied"), "translated_untied": cnt("translated"),
+                    "not_translatable": cnt("not translatable"), "declarations": cnt("declaration"), "list": rows}
+    return out
+
+
 class Codec:
     """Lean decoder/encoder terms for the types of one unit (driver model `fngen`)"""
 
@@ -79,11 +183,14 @@ class Codec:
         if t[0] == "struct":
             ops = u.opaques_of(t, [])
             return "(Fn%s.%s%s)" % (self.area, t[1], "".join(" Nat" for _ in ops))
-        if t[0] == "enum": return "Fn%s.%s" % (self.area, t[1])
+        if t[0] == "enum":
+            ops = u.opaques_of(t, []) if t[1] in u.fi.enum_data else []
+            return "(Fn%s.%s%s)" % (self.area, t[1], "".join(" Nat" for _ in ops))
         if t[0] == "opaque": return "Nat"
         if t[0] == "opt": return "(Option %s)" % self.lean_ty(t[1])
         if t[0] == "vec": return "(List %s)" % self.lean_ty(t[1])
-        if t[0] == "map": return "(List (String × %s))" % self.lean_ty(t[2])
+        if t[0] in ("map", "umap"): return "(List (%s × %s))" % (self.lean_ty(t[1]), self.lean_ty(t[2]))
+        if t[0] in ("set", "uset"): return "(List %s)" % self.lean_ty(t[1])
         if t[0] == "tuple": return "(" + " × ".join(self.lean_ty(x) for x in t[1]) + ")"
         return u.lt(t, False)
 
@@ -93,7 +200,26 @@ class Codec:
         self.done.add(name)
         u = self.u
         L = []
-        if t[0] == "enum":
+        if t[0] == "enum" and t[1] in u.fi.enum_data:
+            # data-carrying enum: the variant index followed by the components
+            vs = u.variants(t[1])
+            ty = self.lean_ty(t)
+            L.append("def dec_%s : Dec %s := fun ts => do" % (name, ty))
+            L.append("  let (tag, ts) ← decNat ts")
+            L.append("  match tag with")
+            encs = []
+            for i, (v, pl) in enumerate(vs):
+                comps = [] if pl is None else (pl[1] if pl[0] == "tuple" else [x for _, x in pl[1]])
+                L.append("  | %d => do" % i)
+                for j, ct in enumerate(comps):
+                    L.append("    let (c%d, ts) ← %s ts" % (j, self.dec(ct)))
+                L.append("    pure (.%s%s, ts)" % (v, "".join(" c%d" % j for j in range(len(comps)))))
+                encs.append("  | .%s%s => \"%s%s\"%s" % (v, "".join(" c%d" % j for j in range(len(comps))), v, "(" if comps else "",
+                            ("".join(" ++ %s%s c%d" % ("\",\" ++ " if j else "", self.enc(ct), j) for j, ct in enumerate(comps)) + " ++ \")\"") if comps else ""))
+            L.append("  | _ => none")
+            L.append("def enc_%s : %s → String" % (name, ty))
+            L += encs
+        elif t[0] == "enum":
             vs = u.fi.enums[t[1]]
             ty = self.lean_ty(t)
             L.append("def dec_%s : Dec %s" % (name, ty))
@@ -129,7 +255,8 @@ class Codec:
         if k == "opaque": return "decNat"
         if k == "opt": return "(decOpt %s)" % self.dec(t[1])
         if k == "vec": return "(decList %s)" % self.dec(t[1])
-        if k == "map": return "(decList (decPair decStr %s))" % self.dec(t[2])
+        if k in ("map", "umap"): return "(decList (decPair %s %s))" % (self.dec(t[1]), self.dec(t[2]))
+        if k in ("set", "uset"): return "(decList %s)" % self.dec(t[1])
         if k == "tuple":
             ds = [self.dec(x) for x in t[1]]
             r = ds[-1]
@@ -147,7 +274,9 @@ class Codec:
         if k == "opaque": return "toString"
         if k == "opt": return "(encOpt %s)" % self.enc(t[1])
         if k == "vec": return "(encList %s)" % self.enc(t[1])
-        if k == "map": return "(encList (encPair id %s))" % self.enc(t[2])
+        if k in ("map", "umap") and t[1][0] == "opaque": return "(encOmap %s)" % self.enc(t[2])   # printed sorted by key
+        if k in ("map", "umap"): return "(encList (encPair %s %s))" % (self.enc(t[1]), self.enc(t[2]))
+        if k in ("set", "uset"): return "(encList %s)" % self.enc(t[1])
         if k == "tuple":
             es = [self.enc(x) for x in t[1]]
             r = es[-1]
@@ -157,13 +286,16 @@ class Codec:
         raise RsError("no encoder for %r" % (t,))
 
 
-def dispatch_for(unit, area, fns, arms, defs):
+def dispatch_for(unit, area, fns, arms, defs, errall=()):
     """adds the `call_…` definitions of the translated functions of one unit"""
     cd = Codec(unit, area)
     calls = []
     for f in fns:
         key = "%s.%s" % (area, f.lean_name)
-        if f.exts:
+        extargs = ""
+        if f.exts and (f.impl, f.name) in errall and [n for n, _ in f.exts] == ["policy_filter_err"]:
+            extargs = "(fun _ => true) "
+        elif f.exts:
             arms.append('  | "%s" :: _ => "nodriver"' % key)
             continue
         ident = "call_%s_%s" % (area, f.lean_name.replace(".", "_").replace("«", "").replace("»", ""))
@@ -172,7 +304,7 @@ def dispatch_for(unit, area, fns, arms, defs):
         for i, (pn, pt) in enumerate(f.params):
             L.append("  let (a%d, ts) ← %s ts" % (i, cd.dec(pt)))
             names.append("a%d" % i)
-        call = "Fn%s.%s %s" % (area, f.lean_name, " ".join(names))
+        call = "Fn%s.%s %s%s" % (area, f.lean_name, extargs, " ".join(names))
         enc = cd.enc(f.out_ty)
         res = "encM %s (%s)" % (enc, call) if f.monadic else '"ok " ++ %s (%s)' % (enc, call)
         L.append("  match ts with")
@@ -188,11 +320,18 @@ def extract(repo):
     summary = []
     arms, ddefs, imports = [], [], []
     snippets = []
-    for tg in TARGETS:
+    import test_rs2lean
+    bad = test_rs2lean.run()
+    if bad:
+        raise ExtractError("x_fn: self-test of the translator failed (translate/test_rs2lean.py): " + "; ".join(bad[:5]))
+    tgs = load_targets()
+    units = {}
+    for tg in tgs:
         try:
-            u = Unit(repo, tg["rel"], "VlsModel.Gen.Fn" + tg["area"], tg.get("consts", ()), tg.get("externals", {}), tg.get("structs", ()))
+            u = unit_for(repo, tg)
         except (RsError, OSError) as e:
             raise ExtractError("x_fn: cannot index %s: %s" % (tg["rel"], e))
+        units[tg["area"]] = u
         for tup in tg["fns"]:
             impl, name, prop, thm = tup[:4]
             impl = impl or None
@@ -203,6 +342,8 @@ def extract(repo):
                 pf = os.path.join(HERE, "..", "lean", "VlsModel", "Props", prop + "Fn.lean")
                 if not os.path.exists(pf) or not re.search(r"\btheorem\s+" + re.escape(thm) + r"\b", open(pf).read()):
                     raise ExtractError("x_fn: target %s names theorem %s which is not in Props/%sFn.lean" % (qn, thm, prop))
+            if f is None and prop == FIXTURE_PROP:
+                raise ExtractError("x_fn: translator fixture %s is NOT TRANSLATED: %s" % (qn, u.failed.get((impl, name))))
             if f is None:
                 ent["facts"]["fn_gen"][qn] = {"file": tg["rel"], "translated": False, "why": u.failed.get((impl, name))}
                 ent["obligations"].append("Gen.Fn%s: %s is NOT TRANSLATED (outside the subset): %s breaks" % (tg["area"], qn, thm))
@@ -222,7 +363,8 @@ def extract(repo):
                 snippets.append("// %s:%d\n%s\n" % (tg["rel"], f.line, txt))
         outputs["Fn%s.lean" % tg["area"]] = u.emit()
         imports.append("import VlsModel.Gen.Fn%s" % tg["area"])
-        dispatch_for(u, tg["area"], [u.fns[k] for k in u.order], arms, ddefs)
+        dispatch_for(u, tg["area"], [u.fns[k] for k in u.order], arms, ddefs,
+                     errall={(t[0] or None, t[1]) for t in tg["fns"] if len(t) > 4 and t[4] == "errall"})
     outputs["FnDispatch.lean"] = "\n".join(
         ["import VlsModel.Drv.FnCodec"] + imports +
         ["/-! Dispatch table of the driver model `fngen`: `<Area>.<function> <args…>` -> outcome of the generated",
@@ -234,6 +376,13 @@ def extract(repo):
             "// of /repo that are translated by rs2lean.py, compiled here so that harness/src/props/fn_gen.rs can run the\n"
             "// real text against the generated Lean definition.  Do not edit by hand.\n"
             "#![allow(dead_code, unused_variables)]\n\n" + "\n".join(snippets))
+    # census of the anchor files: which functions are derived from the source, which are only modelled by hand
+    cen = census(repo, tgs, units)
+    for rel, c in cen.items():
+        for prop in c["properties"]:
+            ent = info.setdefault(prop, {"facts": {"fn_gen": {}}, "obligations": []})
+            ent["facts"].setdefault("fn_census", {})[rel] = {k: v for k, v in c.items() if k != "properties"}
+    info.pop(FIXTURE_PROP, None)
     sp = os.path.join(HERE, "..", "harness", "src", "props", "fn_gen_snippets.rs")
     if not os.path.exists(sp) or open(sp).read() != snip:
         with open(sp, "w") as fh:
